@@ -85,7 +85,7 @@ def _run(ctx):
     ms = load_script()
     rng = ctx.rng
     ctx.rule = ('1..4 in-memory page layouts with identical line ids, 1..4 lines, per-engine charsets (possibly different), empty '
-                'transcriptions, peaky/diffuse/too-short logits (the 0.5 fallback), merging a layout with copies of itself; lines arriving with a stored confidence (None/low/high); '
+                'transcriptions, peaky/diffuse/too-short logits (the 0.5 fallback), merging a layout with copies of itself; lines arriving with a stored confidence (None/low/high); merged layouts merged again (with themselves, with a further engine); '
                 'non-trivial = >= 2 engines and the winner is not engine 0')
     ctx.assumptions += ['mean character confidences computed by the real get_confidences are sent to the model as exact dyadics; '
                         'ties are exact float equalities (same object content)']
@@ -153,6 +153,41 @@ def _run(ctx):
             got = dict(id=li, geom=100, win_text=ml.transcription, win=win,
                        tconf=None if ml.transcription_confidence is None else float(ml.transcription_confidence))
             impl.append((inp, li, got, [list(before[e].lines_iterator())[li].transcription for e in range(n_eng)]))
+        # chained merges: the merged layout goes through merge_layouts again (with itself, and with one more engine); the outcome
+        # must be that of merging freshly built layouts with the same content (no state may survive on the line objects)
+        if n_eng >= 2 and rng.random() < 0.5:
+            def fresh(pl):
+                from pero_ocr.core.layout import PageLayout, RegionLayout, TextLine
+                npl = PageLayout(id=pl.id, page_size=pl.page_size)
+                for r in pl.regions:
+                    nr = RegionLayout(r.id, np.array(r.polygon))
+                    for l in r.lines:
+                        nl = TextLine(id=l.id, baseline=np.array(l.baseline), polygon=np.array(l.polygon), heights=list(l.heights),
+                                      transcription=l.transcription, logits=None if l.logits is None else l.logits.copy(),
+                                      characters=None if l.characters is None else list(l.characters),
+                                      logit_coords=None if l.logit_coords is None else list(l.logit_coords))
+                        nl.transcription_confidence = l.transcription_confidence
+                        nr.lines.append(nl)
+                    npl.regions.append(nr)
+                return npl
+            extra = make_layouts(rng, 1, n_lines)[0] if not same else fresh(layouts[0])
+            for name, second in (('self', None), ('third-engine', extra)):
+                try:
+                    a = [layouts[0], layouts[0] if second is None else second]
+                    ref_in = [fresh(layouts[0]), fresh(layouts[0] if second is None else second)]
+                    ms.merge_layouts(ref_in)
+                    ms.merge_layouts(a)
+                except BaseException as e:
+                    ctx.violation('chained-raises:' + type(e).__name__, 'chained merge_layouts raised %r' % (e,), inp)
+                    break
+                for la, lb in zip(a[0].lines_iterator(), ref_in[0].lines_iterator()):
+                    ca, cb = la.transcription_confidence, lb.transcription_confidence
+                    if la.transcription != lb.transcription or la.characters != lb.characters or (la.logits != lb.logits).nnz != 0 or \
+                            (ca is None) != (cb is None) or (ca is not None and abs(ca - cb) > 1e-12):
+                        ctx.violation('chained:' + name, 'merging an already merged layout again (%s) differs from merging fresh layouts with the same content' % name,
+                                      dict(inp, chained=name), [la.transcription, ca], [lb.transcription, cb])
+                        break
+            ctx.count('chained_merges')
         ctx.sample(dict(texts=inp['texts'], confidences=confs, merged=[l.transcription for l in merged]), limit=3)
     if ctx.driver_ok:
         rep = common.Driver(ctx).batch(reqs)
